@@ -178,6 +178,11 @@ impl Space for RoundRelative {
                             out.lockstep("Duration::round(relativeTo plain date)", &Ok([0i128; 10]), &got, |_, _| true, attrs);
                         }
                     }
+                    Err(_) if no_op_shortcut(&f, *largest, *smallest, *inc) && matches!(&got, Oc::Ok(d) if dur_i128(d) == f.map(|x| x as i128)) => {
+                        // no rounding, no re-balancing: the result is the duration itself and lies in range; only
+                        // the intermediate date is out of range (the earlier specification text returned the duration here)
+                        out.unjudged += 1;
+                    }
                     Err(e) => {
                         out.lockstep("Duration::round(relativeTo plain date)", &Err::<[i128; 10], _>(err_of(*e)), &got, |_, _| false, attrs);
                     }
@@ -191,6 +196,13 @@ impl Space for RoundRelative {
     fn describe(&self) -> serde_json::Value {
         json!({"durations": self.durs.len(), "relative_dates": self.dates.iter().map(|d| format!("{}-{}-{}", d.0, d.1, d.2)).collect::<Vec<_>>(), "option_cells": self.cells.len(), "modes": 9})
     }
+}
+
+/// smallestUnit nanosecond, increment 1, largestUnit = the duration's own largest unit, no calendar
+/// units, every time field below its carry limit: rounding changes nothing.
+fn no_op_shortcut(f: &[i64; 10], largest: usize, smallest: usize, inc: i64) -> bool {
+    let own_largest = f.iter().position(|x| *x != 0).unwrap_or(9);
+    smallest == 9 && inc == 1 && largest == own_largest && f[..3] == [0, 0, 0] && f[4].abs() < 24 && f[5].abs() < 60 && f[6].abs() < 60 && f[7].abs() < 1000 && f[8].abs() < 1000 && f[9].abs() < 1000
 }
 
 fn unit_label(ix: usize) -> &'static str {
@@ -323,7 +335,9 @@ impl Space for UntilRounded {
                             vec![("type", ty.to_string()), ("op", op.to_string()), ("a", format!("{ya:?}+{ta}")), ("b", format!("{yb:?}+{tb}")), ("largest", unit_label(largest).to_string()), ("smallest", unit_label(smallest).to_string()), ("increment", inc.to_string()), ("mode", mode.name().to_string())]
                         };
                         // PlainDate
-                        let model = r5r::diff_with_rounding(Dt::new(ya, 0), Dt::new(yb, 0), largest, inc, smallest, mode).and_then(|d| r5r::from_internal(&d, 3)).map_err(err_of);
+                        // DifferenceTemporalPlainDate skips the rounding step altogether for smallestUnit day, increment 1
+                        let (sm_eff, inc_eff) = if smallest == 3 && inc == 1 { (9, 1) } else { (smallest, inc) };
+                        let model = r5r::diff_with_rounding(Dt::new(ya, 0), Dt::new(yb, 0), largest, inc_eff, sm_eff, mode).and_then(|d| r5r::from_internal(&d, 3)).map_err(err_of);
                         if matches!(&model, Ok(f) if f.iter().any(|x| *x != 0)) && smallest < 3 {
                             out.nontrivial += 1;
                         }
@@ -335,7 +349,7 @@ impl Space for UntilRounded {
                             out.lockstep("PlainDate::until(rounded)", &model, &got, |m, x| dur_i128(x) == *m, || attrs("PlainDate", "until", 0, 0));
                         }
                         // since = -(until with the negated mode)
-                        let model_since = r5r::diff_with_rounding(Dt::new(ya, 0), Dt::new(yb, 0), largest, inc, smallest, mode.negate()).and_then(|d| r5r::from_internal(&d, 3)).map(|f| f.map(|x| -x)).map_err(err_of);
+                        let model_since = r5r::diff_with_rounding(Dt::new(ya, 0), Dt::new(yb, 0), largest, inc_eff, sm_eff, mode.negate()).and_then(|d| r5r::from_internal(&d, 3)).map(|f| f.map(|x| -x)).map_err(err_of);
                         let got = call(|| da.since(&db, settings));
                         if model_since == Err(ErrorKind::Assert) {
                             out.unjudged += 1;
